@@ -9,7 +9,10 @@ EVIDENCE = dict(
     level="model_checking",
     rule="(1) every text of <= MaxChars characters over {1-byte letter, 3-byte letter, space, sentence end, newline} x limits x "
          "the five size units (exhaustive) is split by the real SizeCalculator.SplitToSize; (2) TLC-enumerated profiles of long "
-         "texts (word length x bytes per character x separator, <= 2 segments) x {characters, tokens} x limits >= 200 and random "
+         "texts (word length x bytes per character x separator, <= 2 segments) and probe texts (ASCII prose with a break every "
+         "10 bytes whose only sentence ends lie at the limit position + d1 and + d2, d1 in {-150,-100,-99,-50,-1,0,none}, d2 in "
+         "{1,2,49,50,51,99,100,150,none}: just outside, at the edges of and inside the search windows) x the size configurations "
+         "{characters 200/257} + {tokens 200/231} x TokensPerChar {0.1, 0.25, 0.5, 1.0} (all 630 probes run, profiles sampled), and random "
          "profiles (all units, limits down to 1) go through SplitToSize, ChunkDocumentWithConfig and NewChunkerWithConfig().Chunk; "
          "(3) TLC-enumerated and random overlap configurations (3 chunks x strategy x size x bounds x PreserveWords x heading "
          "context) go through GenerateOverlap, ApplyOverlapToChunks and ChunkWithOverlapEnabled. Every call is one trace event "
@@ -25,6 +28,10 @@ NOTES = """Interpretation choices (soundness first):
   code counts bytes, which is never smaller; the extent of the piece in the original text is NOT used, because a chunker may
   legitimately replace "\n\n" between sentences by one space), tokens = characters div (1/TokensPerChar).  The bound is only asserted for units characters/tokens, a hard maximum
   >= 200 and texts in which every stretch without a 1-byte space/newline is < 50 bytes.
+* Token maxima: the budget is the configured one - a piece holds at most max tokens where tokens = characters div
+  (1 / TokensPerChar); the trace carries cpt = 1 / TokensPerChar (10, 4, 2, 1) and the limit position of the probes is
+  max x cpt bytes.  The overlap dimension is independent of the size configuration in the code (the overlap generator never
+  reads SizeConfig) and stays enumerated by OverlapMC.tla.
 * White space: anything unicode.IsSpace; no-break and ideographic spaces are white but are not counted as break opportunities.
 * Conservation is checked on bytes of non-white characters, in order; white space may be dropped or replaced.
 * UTF-8: every input is valid UTF-8, so every piece and every overlap must be.
@@ -125,7 +132,8 @@ def run(ctx):
           ("Overlap", "Overlap_mc_head.cfg", {"expect_violation": True}),
           ("Overlap", "Overlap_mc_keep.cfg", {"expect_violation": True})]
     gens = [("SplitterMC", "Splitter_gen_quick.cfg" if q else "Splitter_gen_thorough.cfg"),
-            ("SplitterProf", "SplitterProf_gen.cfg"), ("OverlapMC", "OverlapMC_gen.cfg")]
+            ("SplitterProf", "SplitterProf_gen_quick.cfg" if q else "SplitterProf_gen.cfg"), ("OverlapMC", "OverlapMC_gen.cfg"),
+            ("SplitterProf", "SplitterProf_probe.cfg")]
     with ThreadPoolExecutor(max_workers=5) as ex:
         f1 = [ex.submit(ctx.tlc, m, c, workers=3, timeout=3000, count=False, **kw) for m, c, kw in r1]
         fg = [ex.submit(ctx.tlc, m, c, workers=1, timeout=3000, count=False, collect=True) for m, c in gens]
@@ -134,12 +142,17 @@ def run(ctx):
             if not kw:
                 ctx.states += r["distinct"]
                 ctx.transitions += r["generated"]
-        small, prof, ovl = [f.result()["cases"] for f in fg]
+        small, prof, ovl, probes = [f.result()["cases"] for f in fg]
     ctx.exhaustive = True
     if not small or not prof or not ovl:
         raise vlib.MachineryError("TLC emitted no cases")
     nprof, novl = (900, 2000) if q else (6000, len(ovl))
-    prof = rnd.sample(prof, min(nprof, len(prof)))
+    if not probes:
+        raise vlib.MachineryError("TLC emitted no probe cases")
+    # every probe (sentence ends placed around the limit position, for every unit x TokensPerChar x maximum) is run;
+    # the profiles are sampled
+    prof = probes + rnd.sample(prof, min(nprof, len(prof)))
+    ctx.extra["cases_probes"] = len(probes)
     ovl = rnd.sample(ovl, min(novl, len(ovl)))
     ctx.extra.update(cases_small_texts=len(small), cases_profiles=len(prof), cases_overlap=len(ovl))
     ctx.sample({"small_text_case": small[len(small) // 2]})
